@@ -375,6 +375,10 @@ def vf2pp_all_isomorphisms(
 
     # Initialize the stack
     node_order: list[AtomId] = _matching_order(params)
+    if not node_order:
+        # no atoms to map: the empty mapping is the only isomorphism
+        yield {}
+        return
     candidates: set[AtomId] = find_candidates(node_order[0], state, params)
 
     stack: list[tuple[AtomId, set[AtomId]]] = []
